@@ -161,3 +161,94 @@ def run(ctx, config="all"):
     rep.floor("uint-to-int-conversions", len(bodies), 24)
     rep.floor("cast-shift-evaluations", n_ops, 100)
     return rep
+
+
+def payload_limbs(ctx, config="all"):
+    """R-CASTFIT/payload: the wrapped value carried by FromUintError::Overflow is the source modulo 2^target_bits, so it
+    depends on every limb the target type spans (limbs 0 and 1 for u128 / i128 when the source has them).  Backward
+    slice from the payload operand of every Overflow aggregate in the Uint -> primitive conversions, in a three-limb
+    configuration; a payload computed through a private helper is not decided."""
+    from .canon import limb_proj
+    rep = Report("R-CASTFIT/payload", "the wrapped payload of FromUintError::Overflow in each Uint -> primitive integer "
+                 "conversion reads every limb the target type spans (backward slice from the payload operand; limb "
+                 "indices by constant projection)")
+    prog = ctx.prog(config)
+    cfg = (129, 3)
+    n = 0
+    for b in conversion_bodies(prog):
+        v = prog.view(b, cfg)
+        tn = b["output"]["a"][0]["n"]
+        want = set(range(min(cfg[1], (ir.INT_BITS[tn] + 63) // 64)))
+        key = b["key"].replace("crate::", "")
+        _reach = {}
+
+        def reach_from(src, v=v, _reach=_reach):
+            if src not in _reach:
+                seen, stk = set(), list(v.succ.get(src, []))
+                while stk:
+                    x = stk.pop()
+                    if x in seen:
+                        continue
+                    seen.add(x)
+                    stk.extend(v.succ.get(x, []))
+                _reach[src] = seen
+            return _reach[src]
+        for bi in sorted(v.reachable):
+            for s in v.blocks[bi]["stmts"]:
+                if not (s["s"] == "assign" and s["rv"]["r"] == "agg" and s["rv"].get("variant") == "Overflow"
+                        and str(s["rv"].get("def", "")).endswith("FromUintError") and len(s["rv"]["ops"]) >= 2):
+                    continue
+                n += 1
+                reads, opaque, seen, stack = set(), False, set(), [s["rv"]["ops"][1]]
+                while stack:
+                    o = stack.pop()
+                    if o.get("o") not in ("copy", "move"):
+                        continue
+                    l = o["l"]
+                    if v.is_arg(l):
+                        lp = limb_proj(v, o)
+                        idx = None
+                        if lp is not None and len(lp[2]) == 1:
+                            e = lp[2][0]
+                            idx = e[1] if (e[0] == "cidx" and not e[2]) else (v.const_of_local(e[1]) if e[0] == "idx" else None)
+                        if idx is not None:
+                            reads.add(idx)
+                        else:
+                            opaque = True      # the whole value (or a run-time index) is read
+                        continue
+                    for e in o["p"]:
+                        if isinstance(e, list) and e[0] == "idx":
+                            stack.append({"o": "copy", "l": e[1], "p": []})
+                    if l in seen:
+                        continue
+                    seen.add(l)
+                    for dbi, dsi, d in v.defs.get(l, []):
+                        if dbi not in v.reachable:
+                            continue
+                        if dbi != bi and bi not in reach_from(dbi):
+                            continue       # a definition that cannot reach the Overflow aggregate (made after the branch)
+                        if dsi == "term":
+                            nm = ir.callee_name(d["fn"]) or ""
+                            if nm in prog.bodies:
+                                opaque = True  # a helper of the crate computes (part of) the payload
+                            stack.extend(d["args"])
+                        else:
+                            rv = d.get("rv")
+                            if rv is None:
+                                continue
+                            stack.extend(ir.operands_of_rvalue(rv))
+                            if rv["r"] in ("ref", "discr", "len"):
+                                stack.append({"o": "copy", "l": rv["pl"]["l"], "p": rv["pl"]["p"]})
+                k = "%s|payload" % key
+                if opaque:
+                    rep.ok(k, v.where(bi), "payload computed from the whole value / through a helper: not decided")
+                elif want <= reads:
+                    rep.ok(k, v.where(bi), "payload reads limbs %s" % sorted(reads))
+                else:
+                    rep.violation(k, v.where(bi), "the wrapped payload of Overflow for %s reads only limb(s) %s of the source; "
+                                  "the value modulo 2^%d also depends on limb(s) %s (wrapping_to and the error payload "
+                                  "return a wrong value for wide sources)" % (tn, sorted(reads), ir.INT_BITS[tn],
+                                                                              sorted(want - reads)))
+    rep.analysed = {"build_config": config, "overflow_payloads": n}
+    rep.floor("overflow_payloads", n, 4)
+    return rep
